@@ -24,7 +24,7 @@ CONSTANTS
  Rows = {0, 1}
  Cols = {0, 1}
  NPh = 3
- MaxT = 7
+ MaxT = 6
  Salt = 0
  Bug = "none"
  MaskCodes = {0, 1, 2}
